@@ -18,23 +18,23 @@ import (
 
 // Ctx is what a check body sees in one shard process.
 type Ctx struct {
-	Prop    string
-	Tier    string
-	Shard   int
-	NShards int
-	Counts  map[string]int64
-	Outc    map[string]int64
-	Viol    []*ev.Violation
-	violIdx map[string]*ev.Violation
-	Samp    []interface{}
+	Prop     string
+	Tier     string
+	Shard    int
+	NShards  int
+	Counts   map[string]int64
+	Outc     map[string]int64
+	Viol     []*ev.Violation
+	violIdx  map[string]*ev.Violation
+	Samp     []interface{}
 	Deadline time.Time
-	CapHit  bool
-	n       int64
+	CapHit   bool
+	n        int64
 }
 
-func (c *Ctx) Thorough() bool       { return c.Tier == "thorough" }
+func (c *Ctx) Thorough() bool          { return c.Tier == "thorough" }
 func (c *Ctx) Count(k string, d int64) { c.Counts[k] += d }
-func (c *Ctx) Outcome(k string)      { c.Outc[k]++ }
+func (c *Ctx) Outcome(k string)        { c.Outc[k]++ }
 func (c *Ctx) Sample(x interface{}) {
 	if len(c.Samp) < 6 {
 		c.Samp = append(c.Samp, x)
@@ -66,11 +66,11 @@ func (c *Ctx) Expired() bool {
 }
 
 type shardOut struct {
-	Counts map[string]int64  `json:"counts"`
-	Outc   map[string]int64  `json:"outcomes"`
-	Viol   []*ev.Violation   `json:"violations"`
-	Samp   []interface{}     `json:"samples"`
-	CapHit bool              `json:"cap_hit"`
+	Counts map[string]int64 `json:"counts"`
+	Outc   map[string]int64 `json:"outcomes"`
+	Viol   []*ev.Violation  `json:"violations"`
+	Samp   []interface{}    `json:"samples"`
+	CapHit bool             `json:"cap_hit"`
 }
 
 type Check struct {
